@@ -65,6 +65,19 @@ pub mod stream {
             Self: 'w;
         fn as_locked_write(&mut self) -> Self::Write<'_>;
     }
+    // the included file's own #[cfg(test)] module (compiled when a counterexample is
+    // replayed natively) drives the stream over a Vec<u8>
+    impl IsTerminal for Vec<u8> {
+        fn is_terminal(&self) -> bool {
+            false
+        }
+    }
+    impl AsLockedWrite for Vec<u8> {
+        type Write<'w> = &'w mut Vec<u8>;
+        fn as_locked_write(&mut self) -> Self::Write<'_> {
+            self
+        }
+    }
 }
 
 pub mod console {
